@@ -52,7 +52,10 @@ def build_harness():
 def run(pid, tier, deadline_s):
     t0 = time.time()
     build_harness()
-    libs = {v: vbuild.build(v) for v in VARIANTS[pid]}
+    # thorough tier: the quick-sized lattice once more on the library built the way a default ./configure builds it (dist: -O2, _FORTIFY_SOURCE=2,
+    # hardening flags); it has the slack configuration of prod and is judged like prod
+    variants = VARIANTS[pid] + (["dist"] if tier == "thorough" else [])
+    libs = {v: vbuild.build(v) for v in variants}
     fns = fn_list()
     tasks = []
     for name, flags in fns:
@@ -62,7 +65,7 @@ def run(pid, tier, deadline_s):
         if pid in ("C06", "C08", "C03", "C04") and (flags & 0x40):
             continue
         locales = ["C", "C.UTF-8"] if (flags & 0x200) and pid in ("C01", "C02") else ["C"]
-        for v in VARIANTS[pid]:
+        for v in variants:
             for loc in locales:
                 nsh = 4 if (pid in ("C10", "C02") and (flags & 0x40)) else 1
                 for sh in range(nsh):
@@ -70,7 +73,7 @@ def run(pid, tier, deadline_s):
     results = []
     timed_out = []
     if pid in SPECIAL_PROPS:
-        for v in VARIANTS[pid]:
+        for v in variants:
             for loc in ("C", "C.UTF-8"):
                 for grp in (("os",) if pid == "C06" else ("printf", "wprintf", "unicode", "normparts", "conv", "os")):
                     tasks.append(("special:" + grp, v, loc, 0, 1))
@@ -107,9 +110,9 @@ def run(pid, tier, deadline_s):
             elif name.startswith("fmtgrid:"):
                 r = subprocess.run([FMTGRID, name[8:], tier, str(sh), str(nsh)], capture_output=True, text=True, errors="replace", env=dict(env, C11_PROP=pid), timeout=left)
             elif name.startswith("special:"):
-                r = subprocess.run([SPECIAL, pid, v, loc, name[8:]], capture_output=True, text=True, env=env, timeout=left)
+                r = subprocess.run([SPECIAL, pid, "prod" if v == "dist" else v, loc, name[8:]], capture_output=True, text=True, env=env, timeout=left)
             else:
-                r = subprocess.run([CAT, "run", pid, tier, v, loc, name, str(sh), str(nsh)], capture_output=True,
+                r = subprocess.run([CAT, "run", pid, "quick" if v == "dist" else tier, "prod" if v == "dist" else v, loc, name, str(sh), str(nsh)], capture_output=True,
                                    text=True, env=env, timeout=left)
         except subprocess.TimeoutExpired:
             timed_out.append(t)
@@ -145,7 +148,7 @@ def run(pid, tier, deadline_s):
                 elif name.startswith("special:"):
                     sig = j["sig"]; j["case"] = "special " + j["case"]
                 else:
-                    sig = j["sig"] + ("" if v == "prod" else "|" + v)
+                    sig = j["sig"] + ("" if v in ("prod", "dist") else "|" + v)
                 e = viol.setdefault(sig, [0, j["case"], v, loc])
                 e[0] += j["n"]
             elif j["t"] == "stat" and name.startswith("macroclient:"):
@@ -181,7 +184,7 @@ def run(pid, tier, deadline_s):
            "samples": samples[:16] or ["(no sample lines captured)"],
            "functions": len(per_fn), "per_function_evaluations": {k: v[0] for k, v in sorted(per_fn.items())},
            "outcome_classes_max_per_worker": outcomes, "bound": {"N": 14 if tier == "thorough" else 5},
-           "variants": VARIANTS[pid], "tasks": len(tasks), "tasks_timed_out": len(timed_out)}
+           "variants": variants, "tasks": len(tasks), "tasks_timed_out": len(timed_out)}
     assumptions = ["kernel page protection delivers a fault for every access to a guard page",
                    "the catalogue row (signature roles, attributes) of each function is transcribed correctly from its doc comment",
                    "x86-64 SysV calling convention for the universal caller (integer/pointer arguments only)"]
@@ -202,9 +205,9 @@ def replay_kv(kv, quiet=False):
     elif kv["case"].startswith("fmtgrid "):
         r = subprocess.run([FMTGRID, "replay"] + kv["case"].split(" ", 7)[1:], capture_output=True, text=True, errors="replace", env=dict(env, C11_PROP=kv["property"]))
     elif kv["case"].startswith("special "):
-        r = subprocess.run([SPECIAL, "replay", kv["property"], v, kv.get("locale", "C")] + kv["case"].split()[1:], capture_output=True, text=True, env=env)
+        r = subprocess.run([SPECIAL, "replay", kv["property"], "prod" if v == "dist" else v, kv.get("locale", "C")] + kv["case"].split()[1:], capture_output=True, text=True, env=env)
     else:
-        r = subprocess.run([CAT, "replay", kv["property"], v, kv.get("locale", "C"), kv["case"]], capture_output=True,
+        r = subprocess.run([CAT, "replay", kv["property"], "prod" if v == "dist" else v, kv.get("locale", "C"), kv["case"]], capture_output=True,
                            text=True, env=env)
     if not quiet:
         sys.stdout.write(r.stdout)
